@@ -57,6 +57,10 @@ CP ==
   @@ "x" :> 120 @@ "y" :> 121 @@ "z" :> 122 @@ "{" :> 123 @@ "|" :> 124 @@ "}" :> 125 @@ "~" :> 126 @@ "DEL" :> 127
   @@ "U80" :> 128 @@ "EACU" :> 233 @@ "U7FF" :> 2047 @@ "U800" :> 2048 @@ "UFFFD" :> 65533 @@ "U10000" :> 65536
   @@ "EMOJI" :> 128512 @@ "U10FFFF" :> 1114111
+  \* invisible characters: a C1 control, format characters (category Cf) inside and above the BMP, the line and
+  \* paragraph separators, the byte order mark as a character
+  @@ "U85" :> 133 @@ "UAD" :> 173 @@ "U200B" :> 8203 @@ "U2028" :> 8232 @@ "U2029" :> 8233 @@ "U202E" :> 8238
+  @@ "UFEFF" :> 65279 @@ "U1D173" :> 119155 @@ "UE0067" :> 917607
 
 UChars == DOMAIN CP                       \* characters that are Unicode scalar values
 Cp(c) == IF c \in UChars THEN CP[c] ELSE 2000000   \* anything else sorts last and is no control character
